@@ -3,7 +3,7 @@
 From ToughV Require Import Model.Base Model.Pct Model.Json Model.CJson Model.ClientRun Model.TName
      Model.Glob Model.Deleg Model.Keys Model.Editor.
 From ToughV Require Import Model.RootCmd.
-From ToughV Require Import Model.Http Model.Schema Model.Sig Model.Client Model.EditorRT.
+From ToughV Require Import Model.Http Model.Schema Model.Sig Model.Client Model.EditorRT Model.EdOps.
 
 Definition run_C16 (op : N) (a : list tree) : tree :=
   match op, a with
@@ -251,6 +251,56 @@ Definition run_C10_tree (a : list tree) : tree :=
   | _ => T [L 999]
   end.
 
+(* C10, op 2: an editing program through the model of the editing operations (Model/EdOps.v).
+   [root, ops] with op = [code, args...]:
+     0 add [raw name, len, digest]   1 remove [raw name]   2 clear   3 targets version v   4 targets expires z
+     5 snapshot version   6 snapshot expires   7 timestamp version   8 timestamp expires
+     9 delegate_role [name, keys, [kind, patterns], threshold, expires, version]   10 sign_targets_editor keys
+     11 change_delegated_targets role   12 from_repo   13 sign keys
+   -> [[accepted? per op], [sign state per sign op: [1, edit, dkeys, children, keys] | [0]]]
+   (edit and children in the format of op 1) *)
+Definition edop_of_tree (t : tree) : edop :=
+  let c := t_N (t_nth t 0) in
+  let a := t_nth t 1 in
+  if c =? 0 then let '(n, i) := entry_of_tree a in OpAdd n i
+  else if c =? 1 then OpRemove (fst (entry_of_tree a))
+  else if c =? 2 then OpClear
+  else if c =? 3 then OpTargetsVersion (t_N a)
+  else if c =? 4 then OpTargetsExpires (Z_of_tree a)
+  else if c =? 5 then OpSnapshotVersion (t_N a)
+  else if c =? 6 then OpSnapshotExpires (Z_of_tree a)
+  else if c =? 7 then OpTimestampVersion (t_N a)
+  else if c =? 8 then OpTimestampExpires (Z_of_tree a)
+  else if c =? 9 then OpDelegate (t_bytes (t_nth a 0)) (t_Ns (t_nth a 1)) (pathset_of_tree (t_nth a 2))
+                                  (t_N (t_nth a 3)) (Z_of_tree (t_nth a 4)) (t_N (t_nth a 5))
+  else if c =? 10 then OpSignEditor (t_Ns a)
+  else if c =? 11 then OpChange (t_bytes a)
+  else if c =? 12 then OpFromRepo
+  else OpSign (t_Ns a).
+Definition tree_of_entries (en : list (tname * tinfo)) : tree :=
+  T (map (fun ni => T [of_bytes (tn_raw (fst ni)); L (ti_len (snd ni)); L (ti_digest (snd ni))]) en).
+Fixpoint tree_of_enode (n : enode) : tree :=
+  let 'ENode h v e en dk ch sg := n in
+  T [tree_of_hdr h; L v; tree_of_Z e; tree_of_entries en; T (map L dk); T (map tree_of_enode ch); T (map L sg)].
+Definition tree_of_sign_state (o : option sign_state) : tree :=
+  match o with
+  | None => T [L 0]
+  | Some ss =>
+      let e := ss_edit ss in
+      T [L 1;
+         T [tree_of_entries (e_entries e); L (e_tv e); L (e_sv e); L (e_tsv e);
+            tree_of_Z (e_texp e); tree_of_Z (e_sexp e); tree_of_Z (e_tsexp e)];
+         T (map L (ss_dkeys ss)); T (map tree_of_enode (ss_children ss)); T (map L (ss_keys ss))]
+  end.
+Definition run_C10_prog (a : list tree) : tree :=
+  match a with
+  | [rt; ops] =>
+      let r := root_of_tree rt in
+      let prog := map edop_of_tree (t_list ops) in
+      T [T (map of_bool (snd (ed_run r red_new prog))); T (map tree_of_sign_state (ed_signs r red_new prog))]
+  | _ => T [L 999]
+  end.
+
 Definition run_case (t : tree) : tree :=
   match t with
   | T (L p :: L op :: args) =>
@@ -260,7 +310,7 @@ Definition run_case (t : tree) : tree :=
       else if p =? 7 then run_C07 op args
       else if p =? 13 then run_C13 op args
       else if p =? 12 then run_C12 op args
-      else if p =? 10 then (if op =? 1 then run_C10_tree args else run_C10 op args)
+      else if p =? 10 then (if op =? 1 then run_C10_tree args else if op =? 2 then run_C10_prog args else run_C10 op args)
       else if p =? 17 then run_C17 op args
       else if p =? 6 then run_client op args
       else if p =? 20 then run_C20 op args
